@@ -485,3 +485,170 @@ theorem walk_chain_rooted (g : Graph) (src : Nat) (pred : Pred) (hok : PredOk g 
         · right; exact hJ c p m hpm
 
 end Gmx.SwapGraph
+
+namespace Gmx.SwapGraph
+
+/-! ### DFS mode: tight predecessors, untouched stack -/
+
+theorem pruned_false {best : Option Int} {d : Int} (h : ¬ pruned best d = true) :
+    ∀ b, best = some b → d < b := by
+  intro b hb
+  subst hb
+  simp only [pruned, decide_eq_true_eq] at h
+  omega
+
+/-- `dfs_recursive` keeps predecessors tight and never worsens a distance. -/
+theorem dfsRec_tight (g : Graph) : ∀ (fuel cur : Nat) (distance : Option Int)
+    (P : Option (Nat × Nat)) (steps : Nat) (visited : List Nat) (st : Dist × Pred),
+    PredTight g st.1 st.2 →
+    (∀ d u m, distance = some d → P = some (u, m) → u ≠ cur ∧ ∃ e ∈ g.edges, e.src = u ∧ e.dst = cur ∧
+      e.market = m ∧ ∃ w du, e.cost = some w ∧ st.1 u = some du ∧ du + w ≤ d) →
+    PredTight g (dfsRec g fuel cur distance P steps visited st).1 (dfsRec g fuel cur distance P steps visited st).2 ∧
+    Better (dfsRec g fuel cur distance P steps visited st).1 st.1
+  | 0, _, _, _, _, _, _, h, _ => by simp only [dfsRec]; exact ⟨h, Better.refl _⟩
+  | fuel + 1, cur, distance, P, steps, visited, st, hT, hP => by
+    unfold dfsRec
+    by_cases h1 : steps > g.maxSteps
+    · rw [if_pos h1]; exact ⟨hT, Better.refl _⟩
+    · rw [if_neg h1]
+      cases distance with
+      | none => exact ⟨hT, Better.refl _⟩
+      | some d =>
+        simp only []
+        by_cases h2 : pruned (st.1 cur) d = true
+        · rw [if_pos h2]; exact ⟨hT, Better.refl _⟩
+        · rw [if_neg h2]
+          have hlt := pruned_false h2
+          have hB0 : Better (setD st.1 cur d) st.1 := by
+            intro v x hx
+            simp only [setD]
+            by_cases hq : v = cur
+            · subst hq
+              exact ⟨d, by simp, Int.le_of_lt (hlt x hx)⟩
+            · exact ⟨x, by simp [hq, hx], Int.le_refl _⟩
+          have hT0 : PredTight g (setD st.1 cur d) (setP st.2 cur P) := by
+            intro v u m hv
+            simp only [setP] at hv
+            by_cases hq : v = cur
+            · simp only [hq, if_true] at hv
+              obtain ⟨hne, e, he, h1', h2', h3', w, du, hw, hdu, hle⟩ := hP d u m rfl hv
+              refine ⟨e, he, h1', by rw [h2', hq], h3', w, du, d, hw, ?_, ?_, hle⟩
+              · simp [setD, hne, hdu]
+              · simp [setD, hq]
+            · simp only [hq, if_false] at hv
+              obtain ⟨e, he, h1', h2', h3', w, du, dv, hw, hdu, hdv, hle⟩ := hT v u m hv
+              refine ⟨e, he, h1', h2', h3', w, ?_⟩
+              by_cases hu : u = cur
+              · have := hlt du (by rw [← hu]; exact hdu)
+                exact ⟨d, dv, hw, by simp [setD, hu], by simp [setD, hq, hdv], by omega⟩
+              · exact ⟨du, dv, hw, by simp [setD, hu, hdu], by simp [setD, hq, hdv], hle⟩
+          have key := foldl_inv
+            (fun a : Dist × Pred => PredTight g a.1 a.2 ∧ Better a.1 (setD st.1 cur d))
+            (fun st' e => if (cur :: visited).contains e.dst = true then st'
+              else dfsRec g fuel e.dst (e.cost.map (fun w => w + d)) (some (cur, e.market)) (steps + 1)
+                (cur :: visited) st')
+            (outgoing g cur) (setD st.1 cur d, setP st.2 cur P) ⟨hT0, Better.refl _⟩
+            (by
+              intro a e he ⟨haT, haB⟩
+              by_cases h3 : (cur :: visited).contains e.dst = true
+              · rw [if_pos h3]; exact ⟨haT, haB⟩
+              · rw [if_neg h3]
+                have hne : cur ≠ e.dst := by
+                  intro hh
+                  apply h3
+                  rw [← hh]; simp
+                obtain ⟨du, hdu, hle⟩ := haB cur d (by simp [setD])
+                unfold outgoing at he
+                rw [List.mem_reverse, List.mem_filter] at he
+                obtain ⟨r1, r2⟩ := dfsRec_tight g fuel e.dst (e.cost.map (fun w => w + d))
+                  (some (cur, e.market)) (steps + 1) (cur :: visited) a haT
+                  (by
+                    intro d' u m hd' hum
+                    cases hum
+                    cases hc : e.cost with
+                    | none => rw [hc] at hd'; cases hd'
+                    | some w =>
+                      rw [hc] at hd'
+                      simp only [Option.map_some, Option.some.injEq] at hd'
+                      subst hd'
+                      exact ⟨hne, e, he.1, by simpa using he.2, rfl, rfl, w, du, hc, hdu, by omega⟩)
+                exact ⟨r1, Better.trans r2 haB⟩)
+          exact ⟨key.1, Better.trans key.2 hB0⟩
+
+/-- tokens on the recursion stack are never touched. -/
+theorem dfsRec_visited (g : Graph) : ∀ (fuel cur : Nat) (distance : Option Int)
+    (P : Option (Nat × Nat)) (steps : Nat) (visited : List Nat) (st : Dist × Pred),
+    ¬ visited.contains cur = true →
+    ∀ v, visited.contains v = true → (dfsRec g fuel cur distance P steps visited st).1 v = st.1 v
+  | 0, _, _, _, _, _, _, _, _, _ => by simp only [dfsRec]
+  | fuel + 1, cur, distance, P, steps, visited, st, hc, v, hv => by
+    unfold dfsRec
+    by_cases h1 : steps > g.maxSteps
+    · rw [if_pos h1]
+    · rw [if_neg h1]
+      cases distance with
+      | none => rfl
+      | some d =>
+        simp only []
+        by_cases h2 : pruned (st.1 cur) d = true
+        · rw [if_pos h2]
+        · rw [if_neg h2]
+          have hvc : v ≠ cur := by
+            intro hh; subst hh; exact hc hv
+          have key := foldl_inv (fun a : Dist × Pred => a.1 v = st.1 v)
+            (fun st' e => if (cur :: visited).contains e.dst = true then st'
+              else dfsRec g fuel e.dst (e.cost.map (fun w => w + d)) (some (cur, e.market)) (steps + 1)
+                (cur :: visited) st')
+            (outgoing g cur) (setD st.1 cur d, setP st.2 cur P) (by simp [setD, hvc])
+            (by
+              intro a e _ ha
+              by_cases h3 : (cur :: visited).contains e.dst = true
+              · rw [if_pos h3]; exact ha
+              · rw [if_neg h3]
+                rw [dfsRec_visited g fuel e.dst _ _ _ (cur :: visited) a h3 v
+                  (by simp only [List.contains_cons, Bool.or_eq_true]; exact Or.inr hv)]
+                exact ha)
+          exact key
+
+end Gmx.SwapGraph
+
+namespace Gmx.SwapGraph
+
+/-- a visit that is not cut off records its distance, and nothing below it changes it again. -/
+theorem dfsRec_root (g : Graph) (fuel cur : Nat) (d : Int) (P : Option (Nat × Nat)) (steps : Nat)
+    (visited : List Nat) (st : Dist × Pred) (h1 : ¬ steps > g.maxSteps)
+    (h2 : ¬ pruned (st.1 cur) d = true) :
+    (dfsRec g (fuel + 1) cur (some d) P steps visited st).1 cur = some d := by
+  unfold dfsRec
+  rw [if_neg h1]
+  simp only []
+  rw [if_neg h2]
+  exact foldl_inv (fun a : Dist × Pred => a.1 cur = some d)
+    (fun st' e => if (cur :: visited).contains e.dst = true then st'
+      else dfsRec g fuel e.dst (e.cost.map (fun w => w + d)) (some (cur, e.market)) (steps + 1)
+        (cur :: visited) st')
+    (outgoing g cur) (setD st.1 cur d, setP st.2 cur P) (by simp [setD])
+    (by
+      intro a e _ ha
+      by_cases h3 : (cur :: visited).contains e.dst = true
+      · rw [if_pos h3]; exact ha
+      · rw [if_neg h3]
+        rw [dfsRec_visited g fuel e.dst _ _ _ (cur :: visited) a h3 cur (by simp)]
+        exact ha)
+
+/-- what `dfs` returns: rooted and tight predecessors, source at distance 0. -/
+theorem dfs_ok {g : Graph} {src : Nat} {r : Dist × Pred} (h : dfs g src = .ok r) :
+    PredRooted src r.2 ∧ PredTight g r.1 r.2 ∧ r.1 src = some 0 := by
+  unfold dfs at h
+  split at h
+  · cases h
+  · cases h
+    refine ⟨?_, ?_, ?_⟩
+    · exact (dfsRec_rooted g src _ src (some 0) none 0 [] (fun _ => none, fun _ => none)
+        (fun v u m hh => by cases hh) (fun _ => ⟨rfl, rfl⟩) (fun u m hh => by cases hh)).1
+    · exact (dfsRec_tight g _ src (some 0) none 0 [] (fun _ => none, fun _ => none)
+        (fun v u m hh => by cases hh) (fun d u m _ hh => by cases hh)).1
+    · exact dfsRec_root g (g.maxSteps + 1) src 0 none 0 [] (fun _ => none, fun _ => none)
+        (by omega) (by simp [pruned])
+
+end Gmx.SwapGraph
